@@ -444,7 +444,7 @@ pub const NOISE_PROBES: &[&str] = &[
     "noise_getvalues", "noise_unknown_type", "noise_skipped", "noise_foreign_id", "noise_dup_begin", "noise_foreign_begin",
     "noise_unknown_role", "noise_own_misplaced", "noise_getvalues_empty", "noise_huge_record", "noise_huge_record_over_64k_total", "getvalues_incomplete_tail",
 ];
-pub const C01_PROBES: &[&str] = &["burst_of_1100plus_reply_records", 
+pub const C01_PROBES: &[&str] = &["burst_of_1100plus_reply_records", "abort_during_params", 
     "exact_fill_read", "params_3plus_records", "long_form_small_len", "pair_spans_3_records", "four_byte_length",
     "cut_inside_length_prefix", "tight_buffer", "pair_over_one_record", "buffer_holds_whole_huge_record",
 ];
@@ -470,7 +470,8 @@ pub fn c01(cx: &mut Ctx) -> VResult {
     cx.declare(&[], C01_PROBES);
     cx.declare(&[], NOISE_PROBES);
     let big = cx.ch.chance(1, 40);
-    let o = PreOpts { allow_abort: false, noise_num: cx.ch.pick(4), big_ok: big, max_pairs: if big { 3 } else { 10 }, force_buf: None };
+    // history: a quarter of the preambles follow one or two attempts the client aborted during Params on the same parser
+    let o = PreOpts { allow_abort: cx.ch.chance(1, 4), noise_num: cx.ch.pick(4), big_ok: big, max_pairs: if big { 3 } else { 10 }, force_buf: None };
     let mut case = gen_precase(cx, &o);
     // scale: one preamble in ~250 carries a burst of 1100..6000 reply-producing records (unknown types, 8 bytes
     // each) behind some record, with a buffer that can hold the whole burst; the first schedule feeds as much as fits
